@@ -225,6 +225,9 @@ def run_tlc(module, cfg=None, workers=4, env=None, timeout=1500, simulate=None, 
         m = re.match(r"^(\d+) states generated, (\d+) distinct states found", line)
         if m:
             r.states, r.distinct = int(m.group(1)), int(m.group(2))
+        m = re.match(r"^The number of states generated: (\d+)", line)      # simulation mode
+        if m:
+            r.states = r.distinct = int(m.group(1))
         m = re.search(r"The depth of the complete state graph search is (\d+)", line)
         if m:
             r.depth = int(m.group(1))
